@@ -11,7 +11,15 @@ St(r) == r.o[CHOOSE i \in StaticObs(r) : TRUE]
 \* group of the context as observed from the syntax tree (only to keep signatures specific)
 ObsClass(r) == LET s == St(r) IN
                IF s.url THEN (IF s.astctx = "Markdown" THEN "mdurl" ELSE "url") ELSE CtxClass(s.astctx)
-KeyKind(r) == IF r.type \in TypeNames /\ Desc(r.type).key # "" THEN Desc(Desc(r.type).key).kind ELSE ""
+\* kinds of the map keys occurring in the type class (from its descriptor); "" if none
+RECURSIVE KeyKinds(_, _)
+KeyKinds(t, fuel) ==
+  IF fuel = 0 \/ t \notin TypeNames THEN {}
+  ELSE LET d == Desc(t) IN
+       (IF d.key # "" THEN {Desc(d.key).kind} ELSE {}) \cup
+       (IF d.elem # "" THEN KeyKinds(d.elem, fuel - 1) ELSE {}) \cup
+       UNION {KeyKinds(d.fields[i], fuel - 1) : i \in 1..Len(d.fields)}
+KeyKind(r) == LET K == KeyKinds(r.type, 4) IN IF K = {} THEN "" ELSE CHOOSE x \in K : TRUE
 Sig(r) == [fam |-> "showtable",
            rel |-> IF ~AcceptedNeverFails(r) THEN "B=>~R" ELSE "R'=>~B",
            cc |-> ObsClass(r), kind |-> r.kind, key |-> KeyKind(r), type |-> r.type]
